@@ -385,15 +385,32 @@ func oracleC07pan(c *Case) Verdict {
 	if early != nil {
 		return *early
 	}
-	if r.refusal != nil {
-		return discard("refused-by-model")
-	}
 	frame := r.a.FrameText(r.targeted)
+	if r.refusal != nil {
+		// A command that the device model refuses is C08's business,
+		// unless it addresses something outside the targeted vsys: the
+		// attempt itself is then what C07 forbids.
+		cmd := r.cmds[r.refStep]
+		inside := false
+		for _, vn := range r.targeted {
+			inside = inside || strings.Contains(cmd.XPath, "/vsys/entry[@name='"+vn+"']")
+		}
+		if !inside {
+			return fail("pan:outside-vsys-attempted", "command %d (%s) addresses configuration outside the targeted vsys (the device model refuses: %s)\n%s",
+				r.refStep+1, panCmdText(cmd), r.refusal.Msg, panCtx(c, r))
+		}
+	}
 	for i, st := range r.states {
+		if r.refusal != nil && i >= r.refStep {
+			return discard("refused-by-model")
+		}
 		if f := st.FrameText(r.targeted); f != frame {
 			return fail("pan:frame-changed", "command %d (%s) changes configuration outside the targeted vsys\n--- before\n%s\n--- after\n%s\n%s",
 				i+1, panCmdText(r.cmds[i]), frame, f, panCtx(c, r))
 		}
+	}
+	if r.refusal != nil {
+		return discard("refused-by-model")
 	}
 	nt := len(r.cmds) > 0 && len(r.a.VsysNames()) > len(r.targeted)
 	return pass(nt, panClasses(r)...)
